@@ -87,6 +87,20 @@ static void release_hook(void *mutex, int kind, void *cond) {
          ldb_versions_files(g_db->versions, 0), ldb_versions_needs_compaction(g_db->versions),
          (unsigned long long)g_db->logfile_number, g_loglen, g_logsynced, sched_now());
   sched_clear_signals();
+  /* C14 under concurrency: above level 0 the files of the current version are sorted and disjoint (checked while the mutex is held) */
+  { static int reported = 0; int level; size_t i;
+    ldb_version_t *v = g_db->versions->current;
+    const ldb_comparator_t *uc = ldb_user_comparator(g_db);
+    for (level = 1; level < LDB_NUM_LEVELS && !reported; level++)
+      for (i = 1; i < v->files[level].length; i++) {
+        const ldb_filemeta_t *a = v->files[level].items[i - 1], *b = v->files[level].items[i];
+        ldb_slice_t al = ldb_ikey_user_key(&a->largest), bs = ldb_ikey_user_key(&b->smallest);
+        if (ldb_compare(uc, &al, &bs) >= 0) {
+          printf("OVERLAP level=%d files=%llu,%llu @%ld\n", level, (unsigned long long)a->number, (unsigned long long)b->number, sched_now());
+          reported = 1; break;
+        }
+      }
+  }
 }
 
 static void acquire_hook(void *mutex) {
